@@ -34,7 +34,7 @@ definition mirrors (under /repo/libs/core/include/fcppt/ unless noted):
 * `varMatch`, `varApply`, `varApply2`, `varToOptional` — variant/match.hpp, variant/apply.hpp (`std::visit(_function, move_if_rvalue<Variants>(_variants.impl())...)`), variant/to_optional.hpp
 * `tupMap`, `tupPushBack`, `tupConcat` — tuple/map.hpp, tuple/push_back.hpp + tuple/detail/push_back.hpp, tuple/concat.hpp (rvalue tuples only)
 * `arrMap`, `arrPushBack`, `arrJoin2/3`, `arrFromRange` — array/map.hpp, array/push_back.hpp, array/join.hpp + array/detail/join.hpp, array/append.hpp
-                         (first array an rvalue only), array/from_range.hpp (`move_if_rvalue<Source>(_source[Index])` when the size fits)
+                         (after fix e4c0512 also with an lvalue first array), array/from_range.hpp (`move_if_rvalue<Source>(_source[Index])` when the size fits)
 * `recMap`, `recPermute`, `recMultiplyDisjoint` — record/map.hpp (rvalue records only), record/permute.hpp (`move_if_rvalue<Arg>(get<Label>(_arg))` in the
                          order of the result's labels), record/multiply_disjoint.hpp
 * `contMake`           — container/make.hpp: moves out of every argument, whatever its value category (documented "by moving"); used by
@@ -331,9 +331,9 @@ def shapeOk (o : Op) (inp : Input) : Bool :=
   | .recMap => inp.args.length == 1 && catIn inp 0 [.rv] && inp.par.isEmpty
   | .tupPushBack => inp.args.length == 2 && catIn inp 0 anyCat && catIn inp 1 anyCat && n 1 == 1 && inp.par.isEmpty
   | .tupConcat => inp.args.length == 2 && catIn inp 0 [.rv] && catIn inp 1 [.rv] && inp.par.isEmpty
-  | .arrPushBack => inp.args.length == 2 && catIn inp 0 [.rv] && catIn inp 1 anyCat && n 1 == 1 && inp.par.isEmpty
-  | .arrJoin2 => inp.args.length == 2 && catIn inp 0 [.rv] && catIn inp 1 anyCat && inp.par.isEmpty
-  | .arrJoin3 => inp.args.length == 3 && catIn inp 0 [.rv] && catIn inp 1 anyCat && catIn inp 2 anyCat && inp.par.isEmpty
+  | .arrPushBack => inp.args.length == 2 && catIn inp 0 anyCat && catIn inp 1 anyCat && n 1 == 1 && inp.par.isEmpty
+  | .arrJoin2 => inp.args.length == 2 && catIn inp 0 anyCat && catIn inp 1 anyCat && inp.par.isEmpty
+  | .arrJoin3 => inp.args.length == 3 && catIn inp 0 anyCat && catIn inp 1 anyCat && catIn inp 2 anyCat && inp.par.isEmpty
   | .arrFromRange => inp.args.length == 1 && catIn inp 0 anyCat && inp.par.length == 1
   | .recPermute =>
     -- par = the permutation: position j of the result takes the element of position par[j]
